@@ -7,4 +7,6 @@ require (
 	github.com/gopcua/opcua v0.0.0
 )
 
+require github.com/google/uuid v1.6.0 // indirect
+
 replace github.com/gopcua/opcua => /repo
